@@ -164,6 +164,15 @@ class HierDictDocument(DictDocument):
                                                     self.VALID_UNICODE_SOURCES):
             raise ValidationError([key, inst])
 
+    def _from_serstr(self, key, cls, inst, *args):
+        """A value of a kind the type's parser can't digest (e.g. a map or a
+        number where a date string is expected) is invalid input."""
+
+        try:
+            return self.from_serstr(cls, inst, *args)
+        except (TypeError, AttributeError, ValueError):
+            raise ValidationError([key, inst])
+
     def _from_dict_value(self, ctx, key, cls, inst, validator):
         if validator is self.SOFT_VALIDATION:
             self.validate(key, cls, inst)
@@ -204,7 +213,8 @@ class HierDictDocument(DictDocument):
                     raise ValidationError([key, inst])
 
                 if issubclass(cls, (ByteArray, Uuid)):
-                    retval = self.from_serstr(cls, inst, self.binary_encoding)
+                    retval = self._from_serstr(key, cls, inst,
+                                                           self.binary_encoding)
 
                 elif issubclass(cls, Unicode):
                     if isinstance(inst, bytearray):
@@ -232,7 +242,7 @@ class HierDictDocument(DictDocument):
                         retval = inst
 
                 else:
-                    retval = self.from_serstr(cls, inst)
+                    retval = self._from_serstr(key, cls, inst)
 
         # validate native type
         if validator is self.SOFT_VALIDATION:
